@@ -166,6 +166,10 @@ def act(tok, arg=None):
         kw = {}
         if p[2] == "1":
             kw["foo"] = 1
+        elif p[2] == "2":
+            kw["error"] = ("alice", "admins")       # the keyword the built-in pages document, with a tuple value
+        elif p[2] == "3":
+            kw["error"] = "reason é %s %d"
         if p[3] == "0" and int(p[1]) == 401:
             kw["realm"] = "Zone"
         raise HTTPException(int(p[1]), **kw)
@@ -227,8 +231,15 @@ def to_model(case):
     bit = method_bit(c["meth"])
     keep_eh = [i for i in range(len(c["eh"])) if c["ehm"][i] & bit]
     keep_us = [c["us"][i] for i in range(len(c["us"])) if c["usm"][i] & bit]
+    def kw_for_model(v):
+        # abort(code, error=..): fine for the pages that take `error`, an unexpected keyword for the others
+        m = re.match(r"ab~(\d+)~([23])~(\d)$", v)
+        if not m:
+            return v
+        return "ab~%s~%s~%s" % (m.group(1), "0" if int(m.group(1)) in ERROR_KW_PAGES else "1", m.group(3))
     prog = {}
     for k, v in c["prog"].items():
+        v = kw_for_model(v)
         if k[0] == "x":
             i = int(k[1:])
             if i in keep_eh:
@@ -429,7 +440,8 @@ def pool():
     import simplejson
     plain = [f_str(""), f_str("a"), f_str("žluť 😀\n"), f_bytes(b""), f_bytes(b"\x00\xffbin"),
              f_json({}), f_json([]), f_json({"a": [1, {"b": None}], "č": "ř"}), f_json(["x", 1]),
-             f_json([{"o": 1}, {"o": 2}]), f_lbytes([b"ab", b"", b"c"]), f_lbytes([b""]),
+             f_json([{"o": 1}, {"o": 2}]), f_json({"lone": "\ud83d", "pair": "\U0001F600", "nul": "\x00"}),
+             f_json(["\udcff name from os.fsdecode"]), f_lbytes([b"ab", b"", b"c"]), f_lbytes([b""]),
              f_gen([b"g1", b"", b"g2"]), f_gen([]), F_NONE]
     junk = [F_INT, F_OBJ]
 
@@ -525,6 +537,7 @@ def pool():
     return _pool
 
 
+ERROR_KW_PAGES = (400, 401, 403, 404, 405, 501)      # built-in pages with an `error=None` parameter
 ABORT_CODES = [0, 200, 204, 304, 400, 401, 403, 404, 405, 416, 418, 500, 501, 503]
 
 
@@ -544,7 +557,9 @@ def rand_fail(rng):
     r = rng.random()
     if r < 0.4:
         code = rng.choice(ABORT_CODES)
-        return "ab~%d~%d~%d" % (code, 1 if rng.random() < 0.1 else 0, 1 if (code == 401 and rng.random() < 0.5) else 0)
+        r2 = rng.random()
+        return "ab~%d~%d~%d" % (code, 1 if r2 < 0.1 else (2 if r2 < 0.2 else (3 if r2 < 0.25 else 0)),
+                                1 if (code == 401 and rng.random() < 0.5) else 0)
     if r < 0.5:
         f = rng.choice([x for x in pool()["resps"]])
         return "abr~" + f.tok[1:]
